@@ -10,6 +10,7 @@ small cases are re-evaluated by the Gallina model inside coqc (event for event).
 import json
 import os
 import sys
+import time
 import zlib
 
 import vlib
@@ -148,7 +149,9 @@ def run(ck):
         return False, None
 
     for fw in FWS:
+        t_new = time.time()
         base.config_plumbing(ck, fw)
+        ck.log(f"[{fw}] configuration plumbing: {time.time() - t_new:.1f}s")
         cases, meta = [], []
         for role in ("server", "client"):
             masked = role == "server"
@@ -328,6 +331,7 @@ def run(ck):
         # onMessageBegin and onMessageFrameBegin chain to the base class).  The limit is per MESSAGE: messages that are
         # each within the limit must all arrive although their sizes add up beyond it; the first over-limit one fails
         # the connection at its header.  The options reach the factory in one call or in one call per option.
+        t_new = time.time()
         acases, ameta = [], []
         arng = ck.rng("apis")
         for api in ("message", "frame", "streaming"):
@@ -371,8 +375,18 @@ def run(ck):
                                       [len(x) for x in c["chunks"]]]) for c, m in zip(acases, ameta)))
         for i, (c, r, m) in enumerate(zip(acases, ares, ameta)):
             ck.bump(f"recv-api:{m['api']}:{m['plan']}")
+            probe = m["bad"] is not None and m["api"] != "message" and not c["fbd"]
+            if probe:
+                # OBSERVED, not judged: the failedByMe guards live in the base-class hooks (onMessageFrameData, onMessageFrame,
+                # onMessageEnd); an application that overrides them without chaining (as the examples do) keeps being called
+                # while the closing handshake of a 1009 failure runs.  Reported to the integrator as a candidate.
+                cut = next((k for k, e in enumerate(r["events"]) if e[0] in ("sendclose", "drop")), len(r["events"]))
+                after = [e for e in r["events"][cut:] if e[0] == "msg"]
+                ck.bump(f"recv-api:{m['api']}:app-hooks-called-after-1009:{'yes' if after else 'no'}")
             for key, what in ws_recv.check_against_rfc(c, r):
                 if "control-callback-after-violation" in key or "processing-after-close-frame" in key:
+                    continue
+                if probe and ("msg-after-violation" in key or "oversize-delivery" in key):
                     continue
                 ck.violation(f"recv-api/{m['api']}/{m['kind']}/" + key,
                              f"[{fw}] application uses the {m['api']} receive API, limits msg={c['max_msg']} frame={c['max_frame']} "
@@ -466,6 +480,7 @@ def run(ck):
         fr = ck.run_impl("ws_recv.py", {"fw": fw, "cases": [dict(BASE, role="server", max_msg=60, chunks=[], nolost=True,
                                                                   sends=[dict(api="frames", len=200, kind="noise", fragment=50)])]}, nvx=False, timeout=300)["results"][0]
         ck.bump("send-api:frame-wise-over-limit:" + ("written" if fr["sends"]["ops"][0]["wrote"] else "refused"))
+        ck.log(f"[{fw}] receive APIs ({len(acases)} runs) and send APIs ({len(sa_cases)} runs): {time.time() - t_new:.1f}s")
 
         # ---- decompression cap, real zlib
         zc, zmeta = [], []
